@@ -398,6 +398,30 @@ def h_stream(kinds, variant=0):
                             "gene info header round trip")
             g.check(st.remaining() == 0, "loader stops exactly at the terminator")
             ld.loader = SymStream(g)
+        # the grouping reader of the second stage: every assignment is handed out together with the gene-info region it was saved under
+        import src.dataset_processor as dp
+        st.rewind()
+        ld = assignment_io.NormalTmpFileAssignmentLoader.__new__(assignment_io.NormalTmpFileAssignmentLoader)
+        ld.loader, ld.genedb, ld.chr_record, ld.current_gene_info, ld.current_id = st, None, None, None, None
+        call(g, ld._read_id)
+        ral = dp.ReadAssignmentLoader.__new__(dp.ReadAssignmentLoader)
+        ral.unpickler, ral.multimapped_chr_dict = ld, None
+        handed, guard = [], 0
+        while call(g, ral.has_next) and guard < len(kinds) + 2:
+            guard += 1
+            gi_, storage = call(g, ral.get_next)
+            handed.extend((gi_, a) for a in (storage or []))
+        expect, cur = [], None
+        for k, orig in zip(kinds, objs):
+            if k == "g":
+                cur = orig
+            else:
+                expect.append((cur, orig))
+        g.check(len(handed) == len(expect), "the grouping loader hands out every saved assignment once")
+        for (gi_, a), (egi, ea) in zip(handed, expect):
+            g.check(AND(a.assignment_id == ea.assignment_id, gi_ is not None and AND(gi_.start == egi.start, gi_.end == egi.end, gi_.delta == egi.delta)),
+                    "an assignment is handed out together with the gene-info region it was saved under")
+        ld.loader = SymStream(g)
     return fn
 
 
